@@ -23,7 +23,11 @@
 (*                the answer the environment has chosen for it: a value, a late value, or one of    *)
 (*                the fault kinds (nil response with an error of a particular kind).  The main      *)
 (*                request of the duty and its auxiliary requests are answered independently.         *)
-(* Actions: Call (the environment delivers an input), Aux (the environment answers an auxiliary     *)
+(*   PollAnswer(ep,s,r,n) what relay r answers to the n-th request of ONE call: a strategy may poll a relay     *)
+(*                repeatedly within an operation, and the successive answers are a history of untrusted      *)
+(*                inputs within one call (zero value, then a real bid; a real bid, then garbage ...).         *)
+(* Actions: Call (the environment delivers an input), Poll (a relay answers the n-th request of the      *)
+(* pending call), Aux (the environment answers an auxiliary     *)
 (* request of the pending input), Decoded (Vouch's decoder accepted or        *)
 (* rejected it), Use (a consumer worked with what the decoder left behind and ended ok / error /   *)
 (* fallback), Return (the duty ends with an allowed outcome), Undeliverable, DecoderPanic.  The   *)
@@ -39,9 +43,11 @@ EXTENDS RobustnessShapes
 
 CONSTANT EPs        \* the entry points explored by this configuration (subset of EntryPoints)
 
+MaxPoll == 3        \* the third and every later poll of a relay within one call is answered alike (BidAtOf)
+
 -----------------------------------------------------------------------------
 VARIABLES pending,   \* the input being processed: [ep, shape] or NoCall
-          progress,  \* how far the pending input got: [decoded, done, asked]
+          progress,  \* how far the pending input got: [decoded, done, asked, polled]
           last,      \* how the last duty ended (an outcome, "undeliverable", or "none")
           alive      \* the process keeps running
 
@@ -49,7 +55,7 @@ vars == <<pending, progress, last, alive>>
 
 NoCall == [ep |-> "none"]
 NoOutcome == "none"
-NoProgress == [decoded |-> "na", done |-> {}, asked |-> {}]
+NoProgress == [decoded |-> "na", done |-> {}, asked |-> {}, polled |-> {}]
 
 Init == pending = NoCall /\ progress = NoProgress /\ last = NoOutcome /\ alive = TRUE
 
@@ -58,7 +64,7 @@ Call(ep, s) ==
     /\ pending = NoCall
     /\ ep \in EPs /\ s \in Shapes(ep)
     /\ pending' = [ep |-> ep, shape |-> s]
-    /\ progress' = [decoded |-> IF Decides(ep) THEN "unknown" ELSE "na", done |-> {}, asked |-> {}]
+    /\ progress' = [decoded |-> IF Decides(ep) THEN "unknown" ELSE "na", done |-> {}, asked |-> {}, polled |-> {}]
     /\ UNCHANGED <<last, alive>>
 
 (* The code made an auxiliary request (any number of times, at any moment before the duty ends: before,  *)
@@ -69,6 +75,16 @@ Aux(a) ==
     /\ pending # NoCall
     /\ a \in AuxRequests(pending.ep, pending.shape)
     /\ progress' = [progress EXCEPT !.asked = @ \cup {a}]
+    /\ UNCHANGED <<pending, last, alive>>
+
+(* The code asked relay r for the n-th time on behalf of the pending call and the relay gave the answer the   *)
+(* input chose for that poll.  How often and when the code asks is its own business (before the call returns  *)
+(* or from a goroutine the call left behind); whatever the SEQUENCE of answers, nothing else changes: the        *)
+(* duty goes on to one of its allowed ends and the process keeps running.                                        *)
+Poll(r, n) ==
+    /\ pending # NoCall
+    /\ Polled(pending.ep) /\ r \in Relays /\ n \in 1..MaxPoll
+    /\ progress' = [progress EXCEPT !.polled = @ \cup {[relay |-> r, answer |-> PollAnswer(pending.ep, pending.shape, r, n)]}]
     /\ UNCHANGED <<pending, last, alive>>
 
 (* Vouch's decoder returned: it accepted the input (a value was handed to the caller without an       *)
@@ -127,6 +143,7 @@ Next ==
     \/ \E ep \in EPs : \E s \in Shapes(ep) : Call(ep, s)
     \/ \E a \in BOOLEAN : Decoded(a)
     \/ \E a \in AuxUniverse : Aux(a)
+    \/ \E r \in Relays : \E n \in 1..MaxPoll : Poll(r, n)
     \/ \E u \in UseNames : \E o \in Outcomes : Use(u, o)
     \/ \E o \in Outcomes : Return(o)
     \/ Undeliverable
@@ -141,6 +158,7 @@ TypeOK ==
     /\ progress.decoded \in {"na", "unknown", "accepted", "rejected"}
     /\ progress.done \subseteq UseNames
     /\ progress.asked \subseteq AuxUniverse
+    /\ progress.polled \subseteq [relay : Relays, answer : PollUniverse]
     /\ pending = NoCall => progress = NoProgress
     /\ last \in Outcomes \cup {"none", "undeliverable"}
 
@@ -156,6 +174,14 @@ AuxFaultsSurvived ==
     pending # NoCall =>
         /\ progress.asked \subseteq AuxRequests(pending.ep, pending.shape)
         /\ ((\E a \in progress.asked : a.answer \in AuxFaults) => alive)
+
+\* C16 for poll sequences: whatever sequence of answers a relay gave to the polls of one call - only answers of
+\* THIS input's sequence were given - the process keeps running (also when the answers differ in class: a zero
+\* value and a real bid, a real bid and garbage)
+PollSequencesSurvived ==
+    pending # NoCall =>
+        /\ \A p \in progress.polled : \E n \in 1..MaxPoll : p.answer = PollAnswer(pending.ep, pending.shape, p.relay, n)
+        /\ (Cardinality({PollClass(p.answer) : p \in {x \in progress.polled : x.relay = "relay1"}}) > 1 => alive)
 
 \* decode AND use: nothing is used that the decoder rejected, and only consumers of the entry point run
 UsedOnlyIfDecoded ==
